@@ -52,6 +52,7 @@ def run(ck):
     c14.join_score(RuleView(ck, {"C14.2": "C01.9"}))
     from .c04 import scorer_total as _st01
     _st01(ck, "C01.18")
+    emptied_member(ck, "C01.19")
     ck.clause("C01.17", "a record is not altered after it was built (as C02.11): the plotters run inside the worker on the row that is "
                         "written later - a segment list re-ordered in place lists the pairs out of reference order")
     from .c02 import records_frozen as _rf01
@@ -350,6 +351,48 @@ def resolver_used(ck):
 
 
 # ---------------------------------------------------------------------------------------------------------- C01.3
+def emptied_member(ck, rule):
+    """A chain member that a resolution empties must not shield its two neighbours from each other. The pass compares index
+    neighbours (i, i+1) once; the empty segment answers every conflict test with 'no conflict'; a resolution can hand back an empty
+    segment (segment - <all of it> goes through AlignmentSegment.create, which returns the empty segment for no positions). The three
+    together: after (i, i+1) empties i+1, the step (i+1, i+2) compares nothing, and i and i+2 - now neighbours - are never compared;
+    a pair they share stays in both, and the record lists a label twice."""
+    p = ck.ctx.p
+    ck.clause(rule, "a chain member emptied by a resolution does not shield its neighbours from each other: the pass resolves every "
+                    "segment against its nearest predecessor that still has positions")
+    cls = p.find_class("AlignmentSegmentConflictResolver")
+    with_loop = [m for m in cls.methods.values() if any(isinstance(n, (ast.For, ast.While)) for n in ast.walk(m.node))]
+    if not with_loop:
+        raise AnalysisError(f"{cls.where}: the pairwise pass of the resolver was not found")
+    fn = with_loop[0]
+    looks_at_emptiness = any(isinstance(x, ast.Attribute) and x.attr == "empty" for x in ast.walk(fn.node))
+    empty_cls = p.find_class("EmptyAlignmentSegment")
+    chk = empty_cls.methods.get("checkForConflicts")
+    always_none = chk is not None and all(
+        pa.value is not None and ((pa.value[0] == "new" and pa.value[1].endswith("NoConflict")) or (pa.value[0] == "app" and "NoConflict" in pa.value[1]))
+        and not pa.state.assumptions for pa in explore(ck, chk) if pa.outcome == "return")
+    seg = p.find_class("AlignmentSegment")
+    create = p.lookup_method(seg, "create", None)
+    can_empty = create is not None and any(
+        any(x[0] == "new" and x[1].endswith(":EmptyAlignmentSegment") for x in T.subterms(pa.value))
+        for pa in explore(ck, create) if pa.outcome == "return" and pa.value is not None)
+    sub = seg.methods.get("__sub__")
+    through_create = sub is not None and any(isinstance(x, ast.Attribute) and x.attr == "create" for x in ast.walk(sub.node))
+    if always_none and can_empty and through_create and not looks_at_emptiness:
+        ck.violation(rule, "AlignmentSegmentConflictResolver:pairwise-pass:emptied-member", fn.where,
+                     "the pass resolves index neighbours (i, i+1) only, an emptied member answers 'no conflict' to everything, and a "
+                     "resolution can empty a member: its two neighbours are then never compared - a pair they share stays in both "
+                     "segments and the record lists a reference and a query label twice (three single-pair segments of neighbouring "
+                     "seeds that share one pair, -ms 500 -bs 300)",
+                     found=f"{short(chk)} -> no conflict unconditionally; {short(create)} -> EmptyAlignmentSegment; {short(fn)} never looks at .empty",
+                     required="each segment resolved against its nearest non-empty predecessor")
+    elif looks_at_emptiness:
+        ck.ok(rule, "AlignmentSegmentConflictResolver:pairwise-pass:emptied-member", fn.where, "the pass looks at the emptiness of chain members", "")
+    else:
+        ck.ok(rule, "AlignmentSegmentConflictResolver:pairwise-pass:emptied-member", fn.where, "an emptied member cannot shield its neighbours",
+              f"always-no-conflict={always_none}, create-can-empty={can_empty}, sub-through-create={through_create}")
+
+
 def pairwise_pass(ck, rule):
     """The resolver walks {(i, i+1)} over the whole chain; in each step the conflict pair is built from the chain's
     *current* contents and both results are written back to the pair's own slots."""
@@ -366,8 +409,13 @@ def pairwise_pass(ck, rule):
         return callee in with_loop and callee is not entry and \
             not any(isinstance(x, (ast.Yield, ast.YieldFrom)) for x in ast.walk(callee.node))
     # the pass visits every consecutive pair: no way out of the loop that depends on what a segment looks like
-    for lp in [x for x in ast.walk(fn.node) if isinstance(x, (ast.For, ast.While))]:
+    all_loops = [x for x in ast.walk(fn.node) if isinstance(x, (ast.For, ast.While))]
+    outer_loops = [lp for lp in all_loops if not any(lp is not o and any(y is lp for y in ast.walk(o)) for o in all_loops)]
+    for lp in outer_loops:
         for br in [x for x in ast.walk(lp) if isinstance(x, (ast.Break, ast.Return))]:
+            if isinstance(br, ast.Break) and any(o is not lp and any(y is br for y in ast.walk(o)) for o in all_loops
+                                                 if any(y is o for y in ast.walk(lp))):
+                continue                  # leaves an inner loop (the search for a predecessor), not the pass over the chain
             guard = None
             for i0 in [x for x in ast.walk(lp) if isinstance(x, ast.If)]:
                 if any(y is br for y in ast.walk(i0)):
@@ -439,6 +487,20 @@ def pairwise_pass(ck, rule):
                  "the conflict pair is (chain[i0] as left, chain[i1] as right) and the left/right results go back to slots i0/i1",
                  found=f"pair({T.show(left)[-60:]}, {T.show(right)[-60:]}) -> left result to [{T.show(i0)[-40:]}], right result to "
                        f"[{T.show(i1)[-40:]}]", required="chain[i0], chain[i1] = chain[i0].checkForConflicts(chain[i1]).resolveConflict()")
+        # the repaired form of the pass: every segment against its nearest predecessor that still has positions -
+        #   for i1 in range(1, len(chain)): for i0 in range(i1 - 1, -1, -1): <skip empty chain[i0]> ... resolve(i0, i1)
+        if not judged_gen and i1[0] == "elem" and i1[1] == T.mk_call("range", [C(1), T.mk_call("len", [chain])]) and \
+                i0[0] == "elem" and i0[1] == T.mk_call("range", [T.p_sub(i1, C(1)), C(-1), C(-1)]):
+            skips_empty = False
+            for c0, tv0, _ in pa.state.assumptions:
+                cp, pos0 = T.positive(T.as_bool(c0))
+                if any(x0[0] == "attr" and x0[2] == "empty" for x0 in T.subterms(cp)) and (tv0 if pos0 else (not tv0)) is False:
+                    skips_empty = True
+            ck.judge(True, rule, short(fn) + ":length", w, "every chain member from the second on is resolved", found=T.show(i1[1])[:80])
+            ck.judge(skips_empty, rule, short(fn) + ":neighbours", w,
+                     "each member is resolved against its nearest predecessor that still has positions (emptied members are skipped)",
+                     found=T.show(i0[1])[:80], required="predecessors walked downwards from i1 - 1, empty ones skipped")
+            judged_gen = True
         # index generator
         if not judged_gen and i0[0] == "elem" and i0[1][0] == "call" and i0[1][1] == "range" and not i0[1][3]:
             # the indexes are written in place: for i in range(len(chain) - 1): ... chain[i], chain[i + 1]
